@@ -175,6 +175,20 @@ func (rw *rewriter) replaceExpr(e ast.Expr) ast.Expr {
 						rw.n++
 						return call("verifProcWait", p.X)
 					}
+					// Wait of an *exec.Cmd: recognised by the name of the receiver (the types are
+					// not known here; a receiver of another type makes the build fail = exit 2)
+					if namedCmd(s.X) {
+						rw.n++
+						return call("verifCmdWait", s.X)
+					}
+				case "Run":
+					if namedCmd(s.X) {
+						rw.n++
+						return call("verifCmdRun", s.X)
+					}
+				case "CombinedOutput":
+					rw.n++
+					return call("verifOutput", s.X)
 				}
 			}
 		}
@@ -204,6 +218,19 @@ func (rw *rewriter) replaceExpr(e ast.Expr) ast.Expr {
 		}
 	}
 	return e
+}
+
+// namedCmd reports whether the expression ends in an identifier that names a command
+// (cmd, o.cmd, s.inCmd, ...).
+func namedCmd(e ast.Expr) bool {
+	var name string
+	switch x := e.(type) {
+	case *ast.Ident:
+		name = x.Name
+	case *ast.SelectorExpr:
+		name = x.Sel.Name
+	}
+	return strings.Contains(strings.ToLower(name), "cmd")
 }
 
 func isUnlock(e ast.Expr) bool {
@@ -537,6 +564,7 @@ import (
 	"os/exec"
 	"runtime"
 	"sync"
+	"sync/atomic"
 	"time"
 )
 
@@ -554,41 +582,71 @@ type VerifHooks struct {
 	HasProc func(*exec.Cmd) bool
 	// ProcWait blocks until the (simulated) process has ended.
 	ProcWait func(*exec.Cmd)
+	// CmdWait is (*exec.Cmd).Wait.
+	CmdWait func(*exec.Cmd) error
 }
 
-var verifH = VerifHooks{
+var verifDefaults = VerifHooks{
 	Yield:   func() { runtime.Gosched() },
 	Select:  func(int) int { runtime.Gosched(); return 0 },
 	Spawn:   func() uint64 { return 0 },
 	Enter:   func(uint64) {},
 	Exit:    func() {},
-	Start:   func(*exec.Cmd) error { return nil },
+	Start: func(c *exec.Cmd) error {
+		// (package initialisation asks the helper for its version, maybe by hand)
+		if c.Stdout != nil {
+			c.Stdout.Write([]byte("0.6.9"))
+		}
+		return nil
+	},
 	Output:  func(c *exec.Cmd) ([]byte, error) { return []byte("0.6.9"), nil },
 	Kill:    func(*exec.Cmd) error { return nil },
 	HasProc: func(*exec.Cmd) bool { return true },
 	ProcWait: func(*exec.Cmd) {},
+	CmdWait:  func(*exec.Cmd) error { return nil },
+}
+
+// The hooks are read through an atomic pointer: goroutines that the package may have started
+// while it initialised (with the defaults) must not race with the installation.
+var verifHP atomic.Pointer[VerifHooks]
+
+func verifHk() *VerifHooks {
+	if h := verifHP.Load(); h != nil {
+		return h
+	}
+	return &verifDefaults
 }
 
 // VerifInstall installs the simulator's hooks. Must be called before any port is used.
-func VerifInstall(h VerifHooks) { verifH = h }
+func VerifInstall(h VerifHooks) { verifHP.Store(&h) }
 
-func verifYield()                              { verifH.Yield() }
-func verifSelect(n int) int                    { return verifH.Select(n) }
-func verifSpawn() uint64                       { return verifH.Spawn() }
+func verifYield()                              { verifHk().Yield() }
+func verifSelect(n int) int                    { return verifHk().Select(n) }
+func verifSpawn() uint64                       { return verifHk().Spawn() }
 
 // verifZero gives a variable of a channel's element type to receive into.
 func verifZero[T any](c <-chan T) (z T) { return }
 
-func verifEnter(id uint64)                     { verifH.Enter(id) }
-func verifExit()                               { verifH.Exit() }
-func verifStart(c *exec.Cmd) error             { return verifH.Start(c) }
-func verifOutput(c *exec.Cmd) ([]byte, error)  { return verifH.Output(c) }
-func verifKill(c *exec.Cmd) error              { return verifH.Kill(c) }
-func verifHasProc(c *exec.Cmd) bool            { return verifH.HasProc(c) }
+func verifEnter(id uint64)                     { verifHk().Enter(id) }
+func verifExit()                               { verifHk().Exit() }
+func verifStart(c *exec.Cmd) error             { return verifHk().Start(c) }
+func verifOutput(c *exec.Cmd) ([]byte, error)  { return verifHk().Output(c) }
+func verifKill(c *exec.Cmd) error              { return verifHk().Kill(c) }
+func verifHasProc(c *exec.Cmd) bool            { return verifHk().HasProc(c) }
+
+// verifCmdWait / verifCmdRun replace cmd.Wait() / cmd.Run().
+func verifCmdWait(c *exec.Cmd) error { return verifHk().CmdWait(c) }
+
+func verifCmdRun(c *exec.Cmd) error {
+	if err := verifHk().Start(c); err != nil {
+		return err
+	}
+	return verifHk().CmdWait(c)
+}
 
 // verifProcWait replaces cmd.Process.Wait().
 func verifProcWait(c *exec.Cmd) (*os.ProcessState, error) {
-	verifH.ProcWait(c)
+	verifHk().ProcWait(c)
 	return nil, nil
 }
 
@@ -596,9 +654,9 @@ func verifProcWait(c *exec.Cmd) (*os.ProcessState, error) {
 // for simulated time to advance, which a real Lock is not. The mutex stays the real one
 // (same happens-before edges); a self-deadlock becomes a detectable livelock.
 func verifLock(try func() bool) {
-	verifH.Yield()
+	verifHk().Yield()
 	for !try() {
-		verifH.Yield()
+		verifHk().Yield()
 	}
 }
 
@@ -616,9 +674,13 @@ type VerifOwnedStdout struct{ io.WriteCloser }
 
 func verifStdinPipe(c *exec.Cmd) (io.WriteCloser, error) {
 	r, w := verifPipe()
-	c.Stdin = r
+	c.Stdin = VerifOwnedStdin{r}
 	return w, nil
 }
+
+// VerifOwnedStdin marks a stdin that is the process's own end of a pipe (StdinPipe): when
+// the simulated process ends it is closed, and writers get an error (EPIPE in real life).
+type VerifOwnedStdin struct{ io.ReadCloser }
 
 // verifCond replaces sync.Cond: Wait of the real one re-acquires its Locker with a plain
 // Lock, on which a goroutine is not durably blocked (the fake clock would stand still while
@@ -639,7 +701,7 @@ func (c *verifCond) Wait() {
 	c.mu.Unlock()
 	c.L.Unlock()
 	<-ch
-	verifH.Yield() // woken: re-enter the seeded schedule
+	verifHk().Yield() // woken: re-enter the seeded schedule
 	if t, ok := c.L.(interface{ TryLock() bool }); ok {
 		verifLock(t.TryLock)
 	} else {
@@ -726,7 +788,7 @@ func (r *verifPipeReader) Read(b []byte) (int, error) {
 		r.p.ack <- n
 		return n, nil
 	case <-r.p.done:
-		verifH.Yield() // woken by a close: re-enter the seeded schedule
+		verifHk().Yield() // woken by a close: re-enter the seeded schedule
 		return 0, r.p.rerr
 	}
 }
@@ -756,7 +818,7 @@ func (w *verifPipeWriter) CloseWithError(err error) error {
 }
 
 func (w *verifPipeWriter) Write(b []byte) (n int, err error) {
-	verifH.Yield()
+	verifHk().Yield()
 	select {
 	case <-w.p.done:
 		return 0, w.p.werr
@@ -764,7 +826,7 @@ func (w *verifPipeWriter) Write(b []byte) (n int, err error) {
 	}
 	select {
 	case <-w.p.done:
-		verifH.Yield()
+		verifHk().Yield()
 		return 0, w.p.werr
 	case <-w.p.wrTok:
 	}
@@ -776,13 +838,13 @@ func (w *verifPipeWriter) Write(b []byte) (n int, err error) {
 			n += k
 		case <-w.p.done:
 			w.p.wrTok <- struct{}{}
-			verifH.Yield()
+			verifHk().Yield()
 			return n, w.p.werr
 		}
 	}
 	w.p.wrTok <- struct{}{}
 	// woken by the reader's ack: re-enter the seeded schedule before touching anything else
-	verifH.Yield()
+	verifHk().Yield()
 	return n, nil
 }
 
